@@ -227,20 +227,22 @@ prop("C20",
 prop("C01",
      level="proof",
      level_text=(
-         "PARTIAL claim, front half only: deductive proof that every "
-         "expression-building public function (operators with broadcasting "
-         "and scalars both ways, comparisons, logical ops, where/maximum/"
-         "minimum, math functions, astype, reductions over every axis "
-         "subset, full/zeros/eye, pad, broadcast_to) and every lowering rule "
-         "(C02) returns an IndexLambda whose denotation is NumPy's pointwise "
-         "definition for ALL operand values, axis lengths and indices."),
+         "PARTIAL claim: (1) deductive proof that every expression-building "
+         "public function (operators with broadcasting and scalars both ways, "
+         "comparisons, logical ops, where/maximum/minimum, math functions, "
+         "astype, reductions over every axis subset, full/zeros/eye, pad, "
+         "broadcast_to, matmul/dot/vdot) and every lowering rule (C02) "
+         "returns an IndexLambda whose denotation is NumPy's pointwise "
+         "definition for ALL operand values, axis lengths and indices; (2) "
+         "per listed program (translation validation, contract 'kernel'): "
+         "the loopy kernel the real generate_loopy returns denotes the "
+         "program for all sizes, inputs and indices."),
      level_note=(
-         "NOT decided: that CodeGenMapper / InlinedExpressionGenMapper / "
-         "add_store / loopy / the C compiler execute that denotation, that "
-         "code generation never fails and is order-independent (the "
-         "observable is executed loopy code; no contract within reach "
-         "expresses it -- DESIGN §7). Exact arithmetic: casts to the result "
-         "dtype are read as identity; floating-point rounding out of scope."),
+         "NOT decided: that loopy (preprocessing, scheduling, C generation), "
+         "the C compiler and the run time execute the kernel's documented "
+         "meaning; that code generation never fails for programs outside the "
+         "listed ones. Exact arithmetic: casts to the result dtype are read "
+         "as identity; floating-point rounding out of scope."),
      technique="contract-based deductive verification: symbolic execution of "
                "the real source to per-path VCs, discharged by z3",
      design_ref="DESIGN.md §6 C01",
@@ -250,8 +252,8 @@ prop("C01",
                    "NumPy-definition spec functions in the contracts"],
      assumptions=["exact arithmetic; casts value-preserving; no overflow"],
      unverified_surroundings=[
-         "pytato.target.loopy.codegen, pytato.codegen.CodeGenPreprocessor, "
-         "loopy, the C compiler (back half of the property)"])
+         "loopy, the C compiler, pyopencl (below the kernel pytato builds); "
+         "pytato.target.loopy.codegen beyond the listed programs"])
 
 prop("C03",
      level="proof",
@@ -596,3 +598,36 @@ prop("C10",
      trusted_base=["fake MPI collectives (pyvc/fakempi.py)"],
      assumptions=["MPI delivers collectives as specified in pyvc/fakempi.py"],
      unverified_surroundings=["mpi4py", "execute_distributed_partition"])
+
+prop("C07",
+     level="translation_validation",
+     level_text=(
+         "Per listed program and tag assignment, the loopy kernel returned by "
+         "the real generate_loopy (interpreted from source) is given its "
+         "meaning by pyvc/lpden.py and proved (z3) to denote, for ALL sizes "
+         "(size parameters), inputs and indices, what the untagged pytato "
+         "program denotes; output names, shapes and dtypes are those of the "
+         "program for every tag assignment; every temporary is written on its "
+         "whole shape, every read is in bounds, and every instruction depends "
+         "on the writers of what it reads (also through substitution rules "
+         "and reduction bounds)."),
+     level_note=(
+         "Programs and tag assignments are listed (6 program shapes x 10 "
+         "assignments in the quick tier, all 4^k combinations of "
+         "none/stored/substitution/inlined in the thorough tier); sizes, "
+         "inputs and indices are universally quantified. loopy itself "
+         "(preprocessing, scheduling, C generation) and the execution are "
+         "outside: the claim ends at the kernel pytato hands to loopy."),
+     technique="contract-based translation validation: the kernel produced "
+               "by the real code generator is denoted to z3 and proved equal "
+               "to the denotation of the source program, per program",
+     design_ref="DESIGN.md §12 (C07)",
+     explanation="see contracts/c07_kernel.py and pyvc/lpden.py",
+     structural_bound="listed programs x listed tag assignments",
+     trusted_base=["kernel semantics as stated in pyvc/lpden.py",
+                   "loopy (make_kernel, isl domains, pw_aff_to_expr) run "
+                   "natively to *read* the kernel"],
+     assumptions=["loopy implements its instruction language as documented "
+                  "(single-assignment temporaries + dependencies)"],
+     unverified_surroundings=["loopy preprocessing/scheduling/C generation",
+                              "execution (pyopencl)"])
